@@ -446,6 +446,10 @@ StateA == [n |-> n, hashes |-> Nms(hashes), file |-> Nms(file), wpos |-> wpos, m
 LEFT == 0
 RIGHT == 1
 NotMember == 100
+\* length in bytes of value v (the harness builds values of exactly these lengths): members cycle through
+\* lengths whose varbytes prefix takes 1, 3 and 5 bytes (252 | 253, 300, 65535 | 65536)
+VLen(v) == IF v >= 1000 THEN 65 ELSE IF v = NotMember THEN 24 ELSE <<24, 252, 253, 300, 65535, 65536>>[(v % 6) + 1]
+PrefixLen(len) == IF len < 253 THEN 1 ELSE IF len <= 65535 THEN 3 ELSE 5        \* WriteVarUint
 
 \* merkle.depth: ceil(log2 k)
 RECURSIVE DepthR(_, _, _)
@@ -483,10 +487,13 @@ ProveLoop(h, elems, i, size) ==
     ELSE ProveLoop(Node(h, elems[i][2]), elems, i + 1, size)
 Prove(path, root) ==
     IF path.venc # "ok" THEN "err"
-    ELSE LET size == (33 * Len(path.elems) + path.trail) \div 32        \* (Size - Pos) / UINT256_SIZE
+    ELSE LET pos == PrefixLen(VLen(path.val)) + VLen(path.val)           \* source.Pos() after NextVarBytes
+             total == pos + 33 * Len(path.elems) + path.trail           \* source.Size()
+             size == (total - pos) \div 32                              \* (Size - Pos) / UINT256_SIZE
          IN IF ProveLoop(Leaf(path.val), path.elems, 1, size) = root THEN "ok" ELSE "err"
 
-GrowK == /\ k < MaxK /\ k' = k + 1 /\ act' = [name |-> "Grow"] /\ UNCHANGED <<n, hashes, file, wpos, mem>>
+VLens(kk) == [j \in 1..kk |-> VLen(j - 1)]
+GrowK == /\ k < MaxK /\ k' = k + 1 /\ act' = [name |-> "Grow", vlens |-> VLens(k + 1)] /\ UNCHANGED <<n, hashes, file, wpos, mem>>
 QueryB(a) == act' = a /\ UNCHANGED <<n, hashes, file, wpos, mem, k>>
 
 ENm(e) == <<e[1], Nm(e[2])>>
@@ -494,7 +501,7 @@ ENms(es) == [i \in 1..Len(es) |-> ENm(es[i])]
 
 GenPath(j) == /\ j < k
               /\ QueryB([name |-> "GenPath", val |-> j, elems |-> ENms(LeafPath(XLeaves(k), j)),
-                         root |-> Nm(XRoot(k)), rfcroot |-> Nm(MTH(0, k))])
+                         root |-> Nm(XRoot(k)), rfcroot |-> Nm(MTH(0, k)), vlen |-> VLen(j), vlens |-> VLens(k)])
 
 \* nodes of the tree (terms) whose preimage can be offered as a value
 InnerNodes(kk) == {t \in UNION {{Levels(XLeaves(kk))[l][j] : j \in 1..Len(Levels(XLeaves(kk))[l])} : l \in 1..(Depth(kk) + 1)} : t[1] = "N"}
@@ -529,7 +536,7 @@ ProveCases(j) ==
 
 DoProve(c, j) ==
     QueryB([name |-> "Prove", mut |-> c.mut, val |-> c.val, venc |-> c.venc, elems |-> ENms(c.elems), trail |-> c.trail,
-            root |-> Nm(c.root), cut |-> c.cut, base |-> j, res |-> Prove(c, c.root),
+            root |-> Nm(c.root), cut |-> c.cut, base |-> j, res |-> Prove(c, c.root), vlen |-> VLen(c.val), vlens |-> VLens(k),
             np |-> IF c.cut = 0 THEN <<>>
                    ELSE <<Nm(NodeAfter(j, LeafPath(XLeaves(k), j), c.cut)[2]), Nm(NodeAfter(j, LeafPath(XLeaves(k), j), c.cut)[3])>>])
 
